@@ -7,9 +7,9 @@ LEVEL = "model_checking"
 PROFILES = {
     # pid: (invariants TLC checks exhaustively on the model, walk shapes [(nodes, keys, steps, restart)], seed offset)
     "C01": (["C01_NoInvention", "C01_NoLoss", "C01_Converged", "C01_MergeOfAll", "NoErr"], [(3, 3, 70, False), (2, 2, 60, False)], 1000),
-    "C03": (["C03_Atomic", "C03_CoveredIsPending", "C03_BufferedHaveRecord", "C02_RowsMatch", "NoErr"], [(2, 3, 80, False), (3, 3, 60, False)], 3000),
+    "C03": (["C03_Atomic", "C03_CoveredIsPending", "C03_BufferedHaveRecord", "C02_RowsMatch", "C02_PartialRowsMatch", "NoErr"], [(2, 3, 80, False), (3, 3, 60, False)], 3000),
     "C05": (["C05_Serve", "C02_HeldIsDurable", "NoErr"], [(3, 3, 90, False), (3, 2, 70, False)], 5000),
-    "C06": (["C06_AckedPresent", "C02_HeldIsDurable", "C02_RowsMatch", "C07_OwnHead", "C03_CoveredIsPending", "NoErr"], [(3, 3, 70, True), (2, 3, 60, True)], 6000),
+    "C06": (["C06_AckedPresent", "C02_PartialRowsMatch", "C02_HeldIsDurable", "C02_RowsMatch", "C07_OwnHead", "C03_CoveredIsPending", "NoErr"], [(3, 3, 70, True), (2, 3, 60, True)], 6000),
     "C07": (["C07_OwnHead", "C06_AckedPresent", "C01_NoInvention", "NoErr"], [(2, 3, 50, False), (3, 2, 50, False)], 7000),
 }
 
@@ -69,6 +69,30 @@ def run(pid, tier):
                 violations.extend((t, rp) for t in v[:2])
             else:
                 mismatch.append("Replication.tla violates %s but the real code does not follow the counter-example (%s) %s" % (r.violated, rp, "; ".join(m)[:300]))
+    # (1b) committed regression behaviours (counter-examples found earlier, seeded defects): executed on real agents
+    regdir = os.path.join(vlib.ROOT, "regressions", "replication")
+    nreg = 0
+    for fn in sorted(os.listdir(regdir)) if os.path.isdir(regdir) else []:
+        if not fn.endswith(".json"):
+            continue
+        spec = json.load(open(os.path.join(regdir, fn)))
+        out = os.path.join(vlib.scratch(), "reg.%s.ndjson" % fn)
+        p = vlib.run_vh(["sim-replay", os.path.join(regdir, fn), out], timeout=600)
+        if p.returncode != 0:
+            mismatch.append("regression %s: harness failed: %s" % (fn, p.stderr[-300:]))
+            continue
+        ev0 = repl.load_trace(out)
+        if ev0[0]["op"].get("skipped"):
+            mismatch.append("regression %s: actions %s could not be executed (message not produced by the real code)" % (fn, ev0[0]["op"]["skipped"]))
+        r = repl.validate(out, spec["nodes"], spec["keys"])
+        v, m = repl.judge(fn, out, r, pid)
+        nreg += 1
+        if v or m:
+            keep = os.path.join(vlib.REPLAYS, "%s-regression-%s.ndjson" % (pid, fn))
+            os.makedirs(vlib.REPLAYS, exist_ok=True); shutil.copy(out, keep)
+            violations.extend((t, keep) for t in v[:2])
+            mismatch.extend(t + " (%s)" % keep for t in m[:2])
+    cov["regressions_replayed"] = nreg
     # (2) recorded walks of the real cluster, validated by TLC against the specification
     nwalks = 12 if tier == "quick" else 120
     seed0 = vlib.seed() * 100000 + off
